@@ -310,6 +310,9 @@ theorem applyRes_rerun (cfg : Cfg) (pol : Policy) (step : Nat) (tickEv : Ev) (dc
   | failed exc failedAt =>
     simp only [applyRes]
     split
+    · -- a re-run is already scheduled: the failure is skipped
+      exact ⟨Or.inl ⟨rfl, rfl⟩, rfl⟩
+    split
     · exact ⟨Or.inl ⟨rfl, workersOf_snoc_noStart _ _ (by intro s e w; simp)⟩, rfl⟩
     all_goals
       split
